@@ -3,6 +3,8 @@ package wpool
 import (
 	"context"
 	"log/slog"
+
+	"github.com/glebziz/fs_db/internal/verifhook"
 )
 
 func (p *Pool) Run(ctx context.Context) {
@@ -41,6 +43,8 @@ func (p *Pool) exec(e Event) {
 		cancel()
 	}()
 
+	verifhook.At("wpool.exec.begin")
+	defer verifhook.At("wpool.exec.end")
 	err := e.Fn(ctx)
 	if err != nil {
 		slog.Error("the run function failed with an error",
